@@ -56,17 +56,20 @@ CHECKS["C02"] = ("Proof: C02.create_then_extract — for every list of sources w
                  "C02.write_then_read (controller round trip, every size), the invariant of C05 and load(save img) = img. Not proved: which sources "
                  "end up stored (placement, C10) and the report text (checked). Tie/oracle: create -> list -> extract of both real tools vs the "
                  "compiled model and vs the sources, sizes 0 .. beyond a side, every block of a side as first block of a file.", D, "7 C02")
-CHECKS["C04"] = ("Proof so far: geometry of save for both flavours and FF padding of .sd slots, kind/flag dispatch table = documented table, "
-                 "32-byte entry layout for every name length, status validity = layout's, initFileSystem keeps geometry, a freshly created side "
-                 "is accepted by the independent checker Spec.Dos.fsck (kernel evaluation). Tie/oracle: created images vs model, decoded by two "
-                 "independent readers (Lean Spec.Dos and a Python twin) that must agree with each other and with the sources.", D, "7 C04")
+CHECKS["C04"] = ("Proof: C04.created_image_is_well_formed — for every source list --create writes the serialisation of four sides each accepted by "
+                 "the strict independent checker Spec.Dos.fsck (geometry, table byte 0 zero, 160 valid statuses, track 20 reserved, acyclic chains "
+                 "ending in C1..C8, no shared block, used = chains, <= 255 bytes in a last sector); consistent_side_passes_fsck (every side "
+                 "satisfying the invariant of C05); independent_reader_agrees (the decoder written from the layout lists every live entry with, as "
+                 "content, exactly the bytes the tool's reader returns, 255 per sector along the chain); geometry of save for both flavours and FF "
+                 "padding of .sd slots, kind/flag dispatch table = documented table, 32-byte entry layout. Tie/oracle: created images vs model, "
+                 "decoded by two independent readers (Lean Spec.Dos and a Python twin) that must agree with each other and with the sources.", D, "7 C04")
 CHECKS["C05"] = ("Proof: C05.every_history_consistent / every_archive_consistent — after --create and ANY sequence of --add invocations (any sources, "
                  "sizes, end-of-side markers, refusals) every side satisfies the invariant SideInv (geometry, readable table, track 20 reserved, every "
                  "live entry names a duplicate-free linked chain ending in C1..C8, chains pairwise disjoint, used blocks = union of the chains), the "
                  "run returns 0 and the archive is the serialisation of those sides; one writeFile either stores (slot that was not live, exactly the "
                  "chosen free blocks) or refuses with the same table and catalog, no third outcome; every stored file reads back identically after "
                  "any writeFile; free+used+reserved = 160. Hypothesis: source names without code point 0xFF (non-ASCII names are refused by the tools). "
-                 "Not proved: SideInv => acceptance by the independent Spec.Dos.fsck (both evaluated on every image). Tie/oracle: all histories of depth "
+                 "SideInv => accepted by the independent Spec.Dos.fsck is C04.consistent_side_passes_fsck. Tie/oracle: all histories of depth "
                  "<= 2/3 over 9 step kinds, random ones, third-party pre-images with a full catalog and fragmented free space; each step vs model + "
                  "independent fsck + full read-back.", D, "7 C05")
 CHECKS["C06"] = ("Proof: C06.add_keeps_every_file — --add on the archive of any consistent image (whoever wrote it, however fragmented, deleted "
@@ -76,11 +79,13 @@ CHECKS["C06"] = ("Proof: C06.add_keeps_every_file — --add on the archive of an
                  "saves the loaded sides and (fd) rewrites the image byte for byte. The frame on sectors of used blocks is proved inside the "
                  "invariant proof (mid_facts), the byte frame of table/catalog is checked. Tie/oracle: pre-images from tool histories, an "
                  "independent writer (incl. full catalog + fragmented free space) and the bundled real image, then arbitrary batches; byte-level frame check.", D, "7 C06")
-CHECKS["C07"] = ("Proof so far: for any table in which a duplicate-free chain below 160 is linked (any allocation order) the reader follows "
-                 "exactly that chain; linking a disjoint chain keeps other chains; size formula; load accepts 1/2/4-sided fd and 4-sided sd with "
-                 "that many sides and rejects 3; the linear-time reader run by the model's extractor equals the slice-assignment loop of readFile on "
-                 "every input. reader o independent-writer = identity is not proved (executed). Tie/oracle: images from an independent writer (Python "
-                 "twin = Lean Spec.Dos.render, incl. one 157-block chain) through real list/extract vs model vs abstract files.", D, "7 C07")
+CHECKS["C07"] = ("Proof: C07.wellformed_image_extracted_exactly — for every four-sided image whose sides are consistent file systems (any writer, "
+                 "any allocation order, fragmentation, deleted / never-used entries anywhere) with ordinary names, --extract returns 0 and writes "
+                 "per side exactly the files the independent decoder Spec.Dos.files finds, in catalog order, with the content it assigns to the "
+                 "chain; chain following on any linked table, size formula, load side counts, efficient reader = readFile. Not proved: that "
+                 "Spec.Dos.render (the independent writer used to make test images) only produces consistent sides (executed and fsck'd on every "
+                 "image). Tie/oracle: images from an independent writer (Python twin = Lean render, incl. one 157-block chain) through real "
+                 "list/extract vs model vs abstract files.", D, "7 C07")
 CHECKS["C10"] = ("Proof: C10.file_stored_in_one_place — one file offered to the injector, with all its retries on the following sides, either "
                  "leaves every catalog slot of every side as it was or appears in exactly one slot of one side that held nothing, with its whole "
                  "content (never split, never twice); the cursor never moves back and sides behind it are untouched; C10.always_completes — on a "
